@@ -63,8 +63,12 @@ class SlotType(BitsInterface):
     @staticmethod
     def from_bits(bits: bitarray) -> "SlotType":
         assert len(bits) == 20, "SlotType must be 20 bits"
-        return SlotType(
+        slot_type: SlotType = SlotType(
             colour_code=ba2int(bits[:4]),
             data_type=ba2int(bits[4:8]),
             parity=ba2int(bits[8:]),
         )
+        # the verdict is about the received word, not about a regenerated (nulled)
+        # parity or a data type folded to DataTypes.Reserved
+        slot_type.fec_parity_ok = Golay2087.check(bits)
+        return slot_type
